@@ -38,6 +38,13 @@ func (f *Frame) call(st *State, r *Term, site ssa.Instruction, cc *ssa.CallCommo
 			callee, bindings = cv.Fn, cv.Bindings
 		} else {
 			f.check("safe", "nil-func-call:"+describe(cc.Value), r, Neq(v, IntLit(0)), pos)
+			if _, isParam := cc.Value.(*ssa.Parameter); isParam && f.contract != nil && f.contract.PureCallbacks {
+				f.ctx.trusted["precondition of "+f.ctx.fnKey+": the callback does not write memory that existed before the call, terminates and does not panic"] = true
+				na := f.ctx.fresh("alloc", SInt)
+				f.ctx.assume(Ge(na, st.alloc))
+				st.alloc = na
+				return f.freshResults(st, cc.Signature(), "cb")
+			}
 			return f.havocCall(st, r, nil, cc.Signature(), args, "dynamic call "+describe(cc.Value))
 		}
 	default:
@@ -80,6 +87,19 @@ func (f *Frame) callFn(st *State, r *Term, callee *ssa.Function, bindings []Val,
 		return f.contractCall(st, r, target, tmap, ct, bindings, args, pos)
 	}
 	if !eng.inModule(target) {
+		if eng.externConfined(target) {
+			var ats []types.Type
+			if recv := target.Signature.Recv(); recv != nil {
+				ats = append(ats, recv.Type())
+			}
+			ps := target.Signature.Params()
+			for i := 0; i < ps.Len(); i++ {
+				ats = append(ats, ps.At(i).Type())
+			}
+			if len(ats) == len(args) && !target.Signature.Variadic() {
+				return f.confinedExtern(st, r, target, args, ats)
+			}
+		}
 		if eng.externPure(target) {
 			return f.pureExtern(st, target, args)
 		}
@@ -228,10 +248,18 @@ func (f *Frame) havocCall(st *State, r *Term, target *ssa.Function, sig *types.S
 	} else {
 		f.ctx.trusted[why+" (havoc: everything reachable may change; assumed to terminate and not to panic)"] = true
 	}
+	if top || len(comps) > 0 {
+		name := "dynamic"
+		if target != nil {
+			name = shortKey(funcKey(target))
+		}
+		f.frameCheckCall(r, name, nil, false, token.NoPos)
+	}
 	if top {
 		f.havocTop(st)
 	} else if len(comps) > 0 {
 		f.havocComps(st, comps)
+		f.assumeFrameSinceEntryNothing()
 	}
 	return f.freshResults(st, sig, "res")
 }
@@ -298,8 +326,8 @@ func (f *Frame) builtin(st *State, r *Term, name string, cc *ssa.CallCommon, pos
 		case *types.Basic:
 			return f.ctx.uf("strlen", SInt, v)
 		case *types.Map:
-			ks, vs := f.sortOf(u.Key()), f.sortOf(u.Elem())
-			D := f.ctx.comp(st, compMD(ks, vs), ArrS(SInt, ArrS(ks, SBool)))
+			ks := f.sortOf(u.Key())
+			D := f.ctx.comp(st, f.mdName(u.Key(), u.Elem()), ArrS(SInt, ArrS(ks, SBool)))
 			c := f.ctx.uf("card!"+trimSort(ks), SInt, Select(D, v))
 			res := Ite(Eq(v, IntLit(0)), IntLit(0), c)
 			f.ctx.assumeOnce("card:"+c.String(), Ge(c, IntLit(0)))
@@ -316,10 +344,10 @@ func (f *Frame) builtin(st *State, r *Term, name string, cc *ssa.CallCommon, pos
 		m := f.term(cc.Args[0])
 		k := f.asTerm(f.get(cc.Args[1]))
 		mt := f.subst(cc.Args[0].Type()).Underlying().(*types.Map)
-		ks, vs := f.sortOf(mt.Key()), f.sortOf(mt.Elem())
-		dn := compMD(ks, vs)
+		ks := f.sortOf(mt.Key())
+		dn := f.mdName(mt.Key(), mt.Elem())
 		D := f.ctx.comp(st, dn, ArrS(SInt, ArrS(ks, SBool)))
-		f.frameCheckRef(Implies(Neq(m, IntLit(0)), True), m, "map-delete:"+describe(cc.Args[0]), pos)
+		f.frameCheckMap(r, mt, m, k, "map-delete:"+describe(cc.Args[0]), pos)
 		// delete on a nil map is a no-op
 		st.heap[dn] = f.ctx.name("MD", Ite(Eq(m, IntLit(0)), D, Store(D, m, Store(Select(D, m), k, False))))
 		return TupleVal{}
@@ -349,7 +377,7 @@ func (f *Frame) appendOp(st *State, r *Term, cc *ssa.CallCommon, pos token.Pos) 
 	dstT := f.subst(cc.Args[0].Type()).Underlying().(*types.Slice)
 	dst := f.term(cc.Args[0])
 	es := f.sortOf(dstT.Elem())
-	en := compE(es)
+	en := f.eName(dstT.Elem())
 	E := f.ctx.comp(st, en, ArrS(SInt, ArrS(SInt, es)))
 	var n *Term
 	var srcAt func(j *Term) *Term
@@ -392,7 +420,11 @@ func (f *Frame) appendOp(st *State, r *Term, cc *ssa.CallCommon, pos token.Pos) 
 	f.ctx.assume(Implies(inplace, Forall([]*Term{x}, Implies(Or(Lt(x, Add(do, dl)), Ge(x, Add(do, newLen))), Eq(Select(ne, x), Select(old, x))), []*Term{Select(ne, x)})))
 	if f.checkFrame {
 		// an in-place append writes into the existing backing array
-		f.check("frame", "append:"+describe(cc.Args[0]), r, Or(Eq(n, IntLit(0)), Not(inplace), f.isFresh(db)), pos)
+		var idx *Term
+		if nv, ok := n.intVal(); ok && nv == 1 {
+			idx = Slot(do, dl)
+		}
+		f.check("frame", "append:"+describe(cc.Args[0]), r, Or(Eq(n, IntLit(0)), Not(inplace), f.writeAllowed(en, db, idx)), pos)
 	}
 	st.alloc = f.ctx.name("alloc", Ite(inplace, st.alloc, Add(nb, IntLit(1))))
 	st.heap[en] = f.ctx.name("E", Store(E, nb, ne))
@@ -404,6 +436,8 @@ func (f *Frame) appendOp(st *State, r *Term, cc *ssa.CallCommon, pos token.Pos) 
 	return res
 }
 
+func (f *Frame) assumeFrameSinceEntryNothing() {}
+
 func (f *Frame) isFresh(ref *Term) *Term { return Ge(ref, f.top().entry.alloc) }
 
 func (f *Frame) top() *Frame {
@@ -412,26 +446,6 @@ func (f *Frame) top() *Frame {
 		p = p.parent
 	}
 	return p
-}
-
-// frameCheck: when the function claims to write only fresh memory, every store must target it.
-func (f *Frame) frameCheck(r *Term, l LocVal, what string, pos token.Pos) {
-	if !f.checkFrame {
-		return
-	}
-	switch l.kind {
-	case locHeap, locElem:
-		f.check("frame", what, r, f.isFresh(l.ref), pos)
-	case locGlobal:
-		f.check("frame", what, r, False, pos)
-	}
-}
-
-func (f *Frame) frameCheckRef(r *Term, ref *Term, what string, pos token.Pos) {
-	if !f.checkFrame {
-		return
-	}
-	f.check("frame", what, r, Or(Eq(ref, IntLit(0)), f.isFresh(ref)), pos)
 }
 
 // ---- effects analysis ----------------------------------------------------------------------------
@@ -477,6 +491,10 @@ func (e *Engine) effectsOf(callee *ssa.Function, caller *Frame) *effects {
 			return
 		}
 		if len(fn.Blocks) == 0 || !e.inModule(fn) {
+			if e.externConfined(fn) {
+				e.confinedEffects(fn, nil, &Frame{ctx: caller.ctx, fn: fn, tmap: tm, vals: map[ssa.Value]Val{}}, ef)
+				return
+			}
 			if !e.externPure(fn) {
 				ef.top = true
 			}
@@ -509,8 +527,19 @@ func (e *Engine) effectsOf(callee *ssa.Function, caller *Frame) *effects {
 					}
 				}
 				if sc == nil {
+					if _, isParam := cc.Value.(*ssa.Parameter); isParam {
+						if ct := e.contracts.Funcs[funcKey(fn)]; ct != nil && ct.PureCallbacks {
+							continue
+						}
+					}
 					ef.top = true
 					continue
+				}
+				if !e.inModule(sc) && (e.externConfined(sc) || strings.HasPrefix(fullName(sc), "sort.")) {
+					if _, hasModel := externModels[fullName(sc)]; !hasModel || strings.HasPrefix(fullName(sc), "sort.") {
+						e.confinedEffects(sc, cc, pf, ef)
+						continue
+					}
 				}
 				ntm := TMap{}
 				nt := sc
@@ -566,4 +595,60 @@ func (e *Engine) externPure(fn *ssa.Function) bool {
 		return false
 	}
 	return purePkgs[p.Path()]
+}
+
+// confinedEffects: components a confined library function may write, from its parameter types and,
+// when the call instruction is known, from what the interface-typed arguments actually box.
+func (e *Engine) confinedEffects(fn *ssa.Function, cc *ssa.CallCommon, pf *Frame, ef *effects) {
+	var pts []types.Type
+	if recv := fn.Signature.Recv(); recv != nil {
+		pts = append(pts, recv.Type())
+	}
+	for i := 0; i < fn.Signature.Params().Len(); i++ {
+		pts = append(pts, fn.Signature.Params().At(i).Type())
+	}
+	var addType func(pt types.Type, arg ssa.Value)
+	addType = func(pt types.Type, arg ssa.Value) {
+		pt = pf.subst(pt)
+		if _, isTP := types.Unalias(pt).(*types.TypeParam); isTP {
+			return
+		}
+		switch u := pt.Underlying().(type) {
+		case *types.Pointer:
+			if _, isStruct := u.Elem().Underlying().(*types.Struct); isStruct {
+				si := pf.structInfo(u.Elem())
+				for i := range si.Fields {
+					ef.comps[compF(si, i)] = ArrS(SInt, si.Fields[i].Sort)
+				}
+			} else if at, isArr := u.Elem().Underlying().(*types.Array); isArr {
+				es := pf.sortOf(at.Elem())
+				ef.comps[pf.eName(at.Elem())] = ArrS(SInt, ArrS(SInt, es))
+			} else {
+				s := pf.sortOf(u.Elem())
+				ef.comps[pf.pName(u.Elem())] = ArrS(SInt, s)
+			}
+		case *types.Slice:
+			es := pf.sortOf(u.Elem())
+			ef.comps[pf.eName(u.Elem())] = ArrS(SInt, ArrS(SInt, es))
+		case *types.Interface:
+			// what does the argument box?
+			switch a := arg.(type) {
+			case *ssa.MakeInterface:
+				addType(a.X.Type(), a.X)
+			case *ssa.ChangeType:
+				addType(a.X.Type(), a.X)
+			case *ssa.Const:
+				// nil interface
+			default:
+				ef.top = true
+			}
+		}
+	}
+	for i, pt := range pts {
+		var arg ssa.Value
+		if cc != nil && i < len(cc.Args) && len(cc.Args) == len(pts) {
+			arg = cc.Args[i]
+		}
+		addType(pt, arg)
+	}
 }
